@@ -268,7 +268,7 @@ def setup_tifffile():
     shims.instrument(tf)
 
 
-def _empty_cog(shape, g, block):
+def _empty_cog(shape, g, block, fn=None):
     """tf._make_empty_cog(shape, uint8, g, blocksize=block) with TiffWriter recorded and the
     GeoTIFF tag rendering (a rasterio round trip) stubbed; the replay runs it unstubbed"""
     import sys
@@ -293,7 +293,7 @@ def _empty_cog(shape, g, block):
 
         tf.geotiff_metadata = fake_meta
     try:
-        meta, _ = tf._make_empty_cog(shape, "uint8", g, blocksize=block)
+        meta, _ = (fn or tf._make_empty_cog)(shape, "uint8", g, blocksize=block)
     finally:
         if not conc:
             sys.modules["tifffile"], tf.geotiff_metadata = saved_mod, saved_meta
@@ -394,6 +394,228 @@ def h_make_empty_cog(ax, block):
     prove("geotags_from_padded_geobox", len(seen_gbox) == 1 and bool(And(seen_gbox[0].shape.x == meta.shape.x, seen_gbox[0].shape.y == meta.shape.y)))
 
 
+# ---- L11/L12: the task graph construction with dask replaced by recorders -------------------------------
+class _FakeDask:
+    """what _compress_tiles / save_cog_with_dask read of a dask array: shape, chunk grid, name, rechunk"""
+
+    n = 0
+
+    def __init__(self, shape, chunksize, name=None):
+        _FakeDask.n += 1
+        self.shape, self.chunksize = tuple(shape), tuple(chunksize)
+        self.name = name or f"src{_FakeDask.n}"
+        self.ndim = len(self.shape)
+        self.dtype = "uint8"
+
+    @property
+    def chunks(self):
+        out = []
+        for N, c in zip(self.shape, self.chunksize):
+            k = int((N + c - 1) // c)
+            out.append(tuple([c] * k))
+        return tuple(out)
+
+    def rechunk(self, chunks):
+        return _FakeDask(self.shape, chunks, name=f"rechunk({self.name})")
+
+
+class _FakeBag:
+    def __init__(self, dsk, name, npartitions):
+        self.dsk, self.name, self.npartitions = dsk, name, npartitions
+        self.members = [self]
+
+    def repartition(self, npartitions):
+        b = _FakeBag(self.dsk, self.name, npartitions)
+        b.members = self.members
+        return b
+
+
+def _dask_stubs():
+    """sys.modules entries for the dask pieces the graph builders import at call time"""
+    import sys
+    import types
+
+    import dask  # the real package stays importable (have.check_or_error)
+
+    bag = types.ModuleType("dask.bag")
+    bag.Bag = _FakeBag
+
+    def concat(bags):
+        b = _FakeBag(None, "concat", sum(x.npartitions for x in bags))
+        b.members = [m for x in bags for m in x.members]
+        return b
+
+    bag.concat = concat
+    base = types.ModuleType("dask.base")
+    base.quote = lambda x: x
+    base.tokenize = lambda *a, **k: "TOKEN"  # worst case: the token separates nothing
+    hlg = types.ModuleType("dask.highlevelgraph")
+
+    class HighLevelGraph:
+        @staticmethod
+        def from_collections(name, dsk, dependencies=()):
+            return dsk
+
+    hlg.HighLevelGraph = HighLevelGraph
+    mods = {"dask.bag": bag, "dask.base": base, "dask.highlevelgraph": hlg}
+    saved = {k: sys.modules.get(k) for k in mods}
+    saved_attr = {k.split(".")[1]: getattr(dask, k.split(".")[1], None) for k in mods}
+    sys.modules.update(mods)
+    for k, m in mods.items():
+        setattr(dask, k.split(".")[1], m)
+
+    def restore():
+        for k, v in saved.items():
+            if v is None:
+                sys.modules.pop(k, None)
+            else:
+                sys.modules[k] = v
+        for a, v in saved_attr.items():
+            if v is None:
+                if hasattr(dask, a):
+                    delattr(dask, a)
+            else:
+                setattr(dask, a, v)
+
+    return restore
+
+
+class _XX:
+    """the DataArray as the writers see it"""
+
+    def __init__(self, data, gbox, ydim):
+        self.data, self.shape, self.dtype = data, data.shape, "uint8"
+        self.odc = _ODC(gbox, ydim)
+
+
+class _ODC:
+    nodata = None
+
+    def __init__(self, gbox, ydim):
+        self.geobox, self.ydim = gbox, ydim
+
+
+def h_graph(ax, mode):
+    """save_cog_with_dask / _compress_tiles with dask, tifffile and the sink replaced by recorders:
+    task names are distinct per (level, plane); task i of a bag compresses source block (plane, y, x)
+    of tile i in tile-index order and is labelled (level, plane, y, x); in the order handed to the
+    part writer every overview tile precedes every full-resolution tile, smaller levels first"""
+    import odc.geo._interop as interop
+    import odc.geo.cog._tifffile as tf
+    import odc.geo.geobox as gbx
+    from affine import Affine
+
+    ny, nx = Int("ny", 1, 64), Int("nx", 1, 64)
+    ns = {"YX": 1, "YXS": 3, "SYX": 3 if mode != "single_chunk" else 2}[ax]
+    shape = {"YX": (ny, nx), "YXS": (ny, nx, ns), "SYX": (ns, ny, nx)}[ax]
+    if ax == "SYX":
+        assume(Not(And(ny == ns, nx == ny)))
+    # the padding defect listed as a known finding (L10) is not this obligation's subject: inside
+    # these bounds (sides <= 64, 16-pixel tiles) the pad (<= 4) never crosses a tile boundary
+    g = gbx.GeoBox((ny, nx), Affine(rconst(10), 0.0, rconst(0), 0.0, rconst(-10), rconst(0)), "epsg:3857")
+    if ax == "SYX":
+        src_chunks = (ns if mode == "single_chunk" else 1, 16, 16)
+    elif ax == "YXS":
+        src_chunks = (16, 16, ns)
+    else:
+        src_chunks = (16, 16)
+    data = _FakeDask(shape, src_chunks)
+    xx = _XX(data, g, 1 if ax == "SYX" else 0)
+    restore = _dask_stubs()
+    saved = (tf._mk_tile_compressor, tf._pyramids_from_cog_metadata, interop.is_dask_collection, tf.MPUFileSink, tf.mpu_write, tf.ODCExtensionDa if hasattr(tf, "ODCExtensionDa") else None)
+    sink = {}
+    import sys
+    import types
+
+    xr_stub = types.ModuleType("odc.geo.xr")
+    xr_stub.ODCExtensionDa = _ODC
+    saved_xr = sys.modules.get("odc.geo.xr")
+    sys.modules["odc.geo.xr"] = xr_stub
+    import odc.geo as og
+
+    saved_og_xr = getattr(og, "xr", None)
+    og.xr = xr_stub
+    try:
+        tf._mk_tile_compressor = lambda meta, sample_idx=0: ("encoder", sample_idx)
+
+        def pyramids(xx_, meta, resampling="nearest"):
+            out = [xx_]
+            for mm in meta.overviews:
+                sh_ = {"YX": mm.shape.yx, "YXS": (*mm.shape.yx, ns), "SYX": (ns, *mm.shape.yx)}[ax]
+                ch_ = {"YX": mm.tile.yx, "YXS": (*mm.tile.yx, ns), "SYX": (src_chunks[0], *mm.tile.yx)}[ax]
+                out.append(_XX(_FakeDask(sh_, ch_), mm.gbox, xx_.odc.ydim))
+            return tuple(out)
+
+        tf._pyramids_from_cog_metadata = pyramids
+        interop.is_dask_collection = lambda x: True
+        tf.MPUFileSink = lambda dst, parts_base=None: "sink"
+
+        def fake_mpu_write(chunks, write, mk_header=None, user_kw=None, **kw):
+            sink["order"] = chunks
+            sink["meta"] = user_kw["meta"]
+            return "delayed"
+
+        tf.mpu_write = fake_mpu_write
+        meta_holder = {}
+        orig_empty = tf._make_empty_cog
+
+        def empty(shape_, dtype, gbox=None, **kw):
+            kw = {k: v for k, v in kw.items() if k in ("blocksize",)}
+            m, _ = _empty_cog(shape_, gbox, kw["blocksize"], fn=orig_empty)
+            meta_holder["meta"] = m
+            return m, memoryview(b"")
+
+        tf._make_empty_cog = empty
+        try:
+            r = tf.save_cog_with_dask(xx, "/out/file.tif", blocksize=16, stats=False)
+        finally:
+            tf._make_empty_cog = orig_empty
+    finally:
+        tf._mk_tile_compressor, tf._pyramids_from_cog_metadata, interop.is_dask_collection, tf.MPUFileSink, tf.mpu_write = saved[:5]
+        restore()
+        if saved_xr is None:
+            sys.modules.pop("odc.geo.xr", None)
+        else:
+            sys.modules["odc.geo.xr"] = saved_xr
+        if saved_og_xr is not None:
+            og.xr = saved_og_xr
+    prove("returns_the_writer_task", r == "delayed")
+    meta = sink["meta"]
+    levels = meta.flatten()
+    bags = [m for b in sink["order"] for m in b.members]
+    planes = ns if ax == "SYX" else 1
+    prove("one_bag_per_level_and_plane", len(bags) == len(levels) * planes)
+    names = [b.name for b in bags]
+    prove("task_names_distinct", len(set(names)) == len(names))
+    seq = []
+    for b in bags:
+        keys = sorted(b.dsk)
+        prove(f"{b.name}:partitions_numbered_from_0", [k[1] for k in keys] == list(range(len(keys))) and all(k[0] == b.name for k in keys))
+        tasks = [b.dsk[k] for k in keys]
+        lvl, pl = tasks[0][3][0], tasks[0][3][1]
+        seq.append((lvl, pl))
+        m = levels[lvl]
+        want = list(m.tidx(pl if ax == "SYX" else None))
+        prove(f"{b.name}:one_task_per_tile_in_tile_order", [t[3][1:] for t in tasks] == [tuple(w) for w in want] and all(t[3][0] == lvl for t in tasks))
+        ok = True
+        for t in tasks:
+            _, enc, block, (l_, s_, y_, x_) = t
+            if ax == "YX":
+                ok = ok and block[1:] == (y_, x_)
+            elif ax == "YXS":
+                ok = ok and block[1:] == (y_, x_, s_)
+            elif mode == "single_chunk":
+                ok = ok and block[1:] == (0, y_, x_)
+            else:
+                ok = ok and block[1:] == (s_, y_, x_)
+            ok = ok and enc == ("encoder", pl if ax == "SYX" else 0)
+        prove(f"{b.name}:reads_the_block_of_its_tile", ok)
+    # write order: overviews (smallest first) before full resolution
+    lv = [l_ for l_, _ in seq]
+    prove("overviews_before_full_resolution_smallest_first", lv == sorted(lv, reverse=True))
+    prove("every_level_and_plane_once", sorted(seq) == sorted((l_, p_) for l_ in range(len(levels)) for p_ in range(planes)))
+
+
 def h_cog_gbox_tile():
     import odc.geo.geobox as gbx
     from affine import Affine
@@ -483,6 +705,12 @@ OBLIGATIONS = [
        descr="every full-resolution tile announced by the header has a source block in the image re-chunked to the tile size (padding must not add a whole tile row/column that nothing fills)",
        functions=("odc.geo.cog._tifffile._make_empty_cog", "odc.geo.cog._shared.CogMeta.chunked", "odc.geo.cog._tifffile._compress_tiles"),
        bounds="image sides 1..4096, block from grid", stubs=("tifffile.TiffWriter recorder", "geotiff_metadata recorder", "dask re-chunk contract: ceil(N/c) blocks per axis (the replay builds the real dask graph; dask.base.quote aliased to dask.core.quote, which this dask release moved)"),
+       setup=setup_tifffile, timeout_ms=20000),
+    Ob("L11_task_graph", h_graph, fixed(dict(ax="YX", mode="x"), dict(ax="YXS", mode="x"), dict(ax="SYX", mode="per_plane"), dict(ax="SYX", mode="single_chunk")),
+       descr="save_cog_with_dask/_compress_tiles: distinct task names per (level, plane), task i compresses the source block of tile i, tiles labelled (level, plane, y, x); write order = overviews smallest first, then full resolution",
+       functions=("odc.geo.cog._tifffile.save_cog_with_dask", "odc.geo.cog._tifffile._compress_tiles", "odc.geo.cog._shared.CogMeta.tidx"),
+       bounds="image sides 1..64 (symbolic), 16-pixel tiles, layouts YX / YXS(3) / SYX(3 planes, or 2 in one chunk); dask token assumed to separate nothing (constant)",
+       stubs=("dask.bag / dask.base / dask.highlevelgraph recorders", "tifffile.TiffWriter recorder", "_pyramids_from_cog_metadata (reprojection) replaced by shapes from the header metadata", "MPUFileSink/mpu_write recorder (byte assembly is C06)", "tile compressor replaced by a tag"),
        setup=setup_tifffile, timeout_ms=20000),
     Ob("L6_cog_gbox_tile", h_cog_gbox_tile, fixed(), descr="cog_gbox(tile=): shape from the layout rule, grid unchanged", functions=("odc.geo.cog._shared.cog_gbox",), setup=setup, timeout_ms=20000),
 ]
